@@ -153,7 +153,32 @@ def foreign_case(r, cid, bed=None, readers=("plain", "cached"), counter=None):
         tags.add("multi_level_index")
     if spec["endian"] == "big" or dec["index"]["depth"] > 1 or any(s.get("type", 1) != 1 for s in sections):
         tags.add("nt")
-    return CaseT(cid, "readbed" if bed else "readwig", [], lines, tags)
+    c = CaseT(cid, "readbed" if bed else "readwig", [], lines, tags)
+    c.spec = spec
+    return c
+
+
+def sparse_case(r, cid):
+    """a bigWig whose data, indexes and zoom levels sit beyond a hole of more than 4 GiB (file offsets that do not fit 32 bits), handed
+    to the readers as a sparse image (`SEG <offset> <hex>` lines; the harness serves zeros in between). Its content is that of the
+    same file without the hole, which travels along as FILEHEX for the judge, the decoder and the reader model."""
+    c = foreign_case(r, cid, bed=False, readers=("plain", "cached"))
+    if c is None:
+        return None
+    spec = dict(c.spec)
+    spec["gap_before_data"] = r.choice([1 << 32, (1 << 32) + 0x12345678, (3 << 32) + 7, (1 << 40) + 5])
+    try:
+        segs = bbi_codec.encode_bigwig(spec)
+    except Exception:
+        return None
+    lines = []
+    for l in c.lines:
+        t = l.split(" ")
+        if t[0] == "Q" and t[1] not in ("iv", "vals"):
+            continue                                   # the sparse source answers interval and per-base queries
+        lines.append(l)
+    lines += [f"SEG {off} {data.hex()}" for (off, data) in segs]
+    return CaseT(cid, "readwig", [], lines, set(c.tags) | {"data_beyond_4GiB", "nt"})
 
 
 class C10(WigBedProp):
@@ -178,6 +203,10 @@ class C10(WigBedProp):
                 self.rejected_by_judge += 1          # generator drift: never handed to the readers
                 continue
             out.append(c)
+        for k in range(60 if tier == "thorough" else 12):
+            c = sparse_case(rng.fork(f"sparse{k}"), f"sp{k}")
+            if c is not None:
+                out.append(c)
         return out
 
     def nontrivial(self, case, il):
